@@ -22,6 +22,7 @@ mod profiles;
 mod rng;
 mod rt;
 mod scen;
+mod sdk;
 mod snapshot;
 mod world;
 
